@@ -116,3 +116,93 @@ theorem getRegion_inv (m : Mesh) (hm : m.Inv) (item : Region) (hbox : BoxIn m it
             unfold Region.edge; rw [hlo, hhi]; ring
 
 end DFV.C07
+
+namespace DFV.C07
+open DFV DFV.Mesh
+
+/-- field well-formedness: mesh invariant and arrays shaped like the mesh -/
+def FldWF (f : Fld) : Prop := f.mesh.Inv ∧ f.data.shape = f.mesh.n ∧ f.valid.shape = f.mesh.n
+
+theorem getD_replicate_zero (n a : Nat) : (List.replicate n (0 : Int)).getD a 0 = 0 := by
+  rw [List.getD_eq_getElem?_getD]
+  by_cases h : a < n
+  · simp [h]
+  · simp [h]
+
+/-- `field[item]` when the extracted mesh is a block of whole cells of the source on every
+axis: the centre of result cell `j` lies in source cell `off + j`, which is the cell copied. -/
+theorem getItem_block (f : Fld) (hf : FldWF f) (item : Item) (sm : Mesh) (hsm : getMesh f.mesh item = .ok sm)
+    (hnd : sm.ndim = f.mesh.ndim) (hnl : sm.n.length = f.mesh.ndim)
+    (off cnt : Nat → Nat) (hcnt : ∀ b, b < f.mesh.ndim → 0 < cnt b)
+    (hblk : ∀ b, b < f.mesh.ndim → AxisBlock sm f.mesh b b (off b) (cnt b))
+    (g : Fld) (h : getItem f item = .ok g) :
+    g.mesh = sm ∧ ∀ j, inRange g.mesh.n j = true →
+      f.mesh.point2index (g.mesh.centre j) = .ok (tab f.mesh.ndim fun b => off b + j.getD b 0) ∧
+      g.data.get j = f.data.get (tab f.mesh.ndim fun b => off b + j.getD b 0) ∧
+      g.valid.get j = f.valid.get (tab f.mesh.ndim fun b => off b + j.getD b 0) := by
+  obtain ⟨hinv, hds, hvs⟩ := hf
+  unfold getItem at h
+  rw [hsm] at h
+  simp only at h
+  split at h
+  · cases h
+  · rename_i p0 hp0
+    split at h
+    · cases h
+    · rename_i imin himin
+      obtain ⟨q1, q2, q3, _⟩ := mkFld_inv _ _ _ _ _ h
+      obtain ⟨_, _, p03⟩ := index2point_inv sm _ _ hp0
+      obtain ⟨_, _, im3⟩ := point2index_inv f.mesh _ _ himin
+      have himin' : imin = tab f.mesh.ndim off := by
+        rw [im3]
+        apply tab_congr
+        intro b hb
+        rw [p03, getD_tab _ _ _ _ (by omega), getD_replicate_zero]
+        have := (block_index (hblk b hb) (inv_cell_pos hinv hb) 0 (hcnt b hb)).1
+        simpa using this
+      refine ⟨q1, ?_⟩
+      intro j hj
+      rw [q1] at hj ⊢
+      refine ⟨block_point2index f.mesh sm hinv hnd hnl off cnt hblk j hj, ?_, ?_⟩
+      · rw [q2]
+        show f.data.get (tab f.data.shape.length fun b => j.getD b 0 + imin.getD b 0) = _
+        rw [hds, inv_n_length hinv]
+        congr 1
+        apply tab_congr
+        intro b hb
+        rw [himin', getD_tab _ _ _ _ hb]; omega
+      · rw [q3]
+        show f.valid.get (tab f.valid.shape.length fun b => j.getD b 0 + imin.getD b 0) = _
+        rw [hvs, inv_n_length hinv]
+        congr 1
+        apply tab_congr
+        intro b hb
+        rw [himin', getD_tab _ _ _ _ hb]; omega
+
+/-- a stored subregion that consists of whole cells `k₁ … k₂-1` of the mesh on every axis -/
+def SubAligned (m : Mesh) (s : Region) (k1 k2 : Nat → Nat) : Prop :=
+  s.ndim = m.ndim ∧ s.pmax.length = m.ndim ∧ ∀ a, a < m.ndim →
+    k1 a < k2 a ∧ k2 a ≤ m.nAt a ∧
+    s.lo a = m.region.lo a + (k1 a : Rat) * m.cellAt a ∧
+    s.hi a = m.region.lo a + (k2 a : Rat) * m.cellAt a
+
+theorem getName_inv (m : Mesh) (hm : m.Inv) (name : String) (s : Region) (hfind : findSub m.subs name = some s)
+    (k1 k2 : Nat → Nat) (hal : SubAligned m s k1 k2) (g : Mesh) (h : getName m name = .ok g) :
+    g.region = s ∧ g.ndim = m.ndim ∧ g.n.length = m.ndim ∧
+    ∀ a, a < m.ndim → AxisBlock g m a a (k1 a) (k2 a - k1 a) := by
+  unfold getName at h
+  rw [hfind] at h
+  simp only at h
+  obtain ⟨g1, g2, _, _, _⟩ := mkCell_inv _ _ _ _ h
+  obtain ⟨s1, s2, s3⟩ := hal
+  refine ⟨g1, by unfold Mesh.ndim; rw [g1]; exact s1, by rw [g2, tab_length]; exact s1, ?_⟩
+  intro a ha
+  obtain ⟨t1, t2, t3, t4⟩ := s3 a ha
+  have hcast : ((k2 a - k1 a : Nat) : Rat) = (k2 a : Rat) - (k1 a : Rat) := by
+    push_cast [Nat.cast_sub t1.le]; ring
+  apply axisBlock_of g m a a _ _ (by omega) (by rw [g1]; exact t3) (by rw [g1, t4, hcast]; ring) _ (by omega)
+  rw [nAt_def, g2, getD_tab _ _ _ _ (by omega), cell_getD m _ ha]
+  apply count_of_edge _ _ _ (inv_cell_pos hm ha).ne'
+  unfold Region.edge; rw [t3, t4, hcast]; ring
+
+end DFV.C07
